@@ -274,6 +274,7 @@ impl Database {
         Ok(())
     }
 
+    #[allow(dead_code)]
     pub(crate) fn replay_schema_tables_from_segments(
         schema_path: &Path,
         segments: &[std::path::PathBuf],
